@@ -14,6 +14,7 @@ import concurrent.futures as cf
 import hashlib
 import importlib
 import json
+import re
 import os
 import subprocess
 import sys
@@ -40,6 +41,10 @@ def load_known():
 
 # development aid only (tools/try_patch_wt.sh): registered commands always analyse /repo
 REPO = os.environ.get('MPGVERIF_REPO', '/repo')
+
+
+# an exception naming a private (underscore) stand-in class of a harness, or the signature of a fake_* callable
+STANDIN_GAP = re.compile(r"'_[A-Za-z]\w*'|\b_[A-Z]\w*\.\w+\(\)|\bfake_\w+\(\)|<locals>\.\w+\(\)")
 
 
 def run_job(job, tmpdir):
@@ -175,6 +180,13 @@ def main(argv=None):
                                 f"command-level lift does not")
             return
         code = str(rep.get('code'))
+        if code in ('EXC:AttributeError', 'EXC:TypeError', 'EXC:NotImplementedError') and \
+                STANDIN_GAP.search(rep.get('what', '')):
+            # the implementation touched something a duck-typed stand-in of the harness does not model (e.g. after a
+            # refactor that is perfectly correct): the condition cannot decide - a harness gap, never a VIOLATION
+            malfunctions.append(f"{cname}: harness stand-in incomplete for the current source ({rep.get('what', '')[:200]}); "
+                                f"witness {r['args']}")
+            return
         for k in known:
             if k.get('property') == prop and k.get('condition') == cname and k.get('code') == code:
                 known_hits.append((cname, k, r['args']))
